@@ -55,6 +55,14 @@ def discipline (evs : List UEvent) : Bool := primDiscipline (evs.map shape)
     failing `Write` only cuts later `Write`s of the same call. -/
 def disciplinedCalls (s : Settings) (calls : List Call) : Bool := primDiscipline (plannedPrims s calls)
 
+/-- "every entity marshals": no call of the sequence is handed a value on which the marshaller
+    reports an error of its own — so that a failing `Write` is the only reason a call can fail.
+    Like the discipline it is decidable on the call sequence and the initial settings and does not
+    depend on the underlying writer. -/
+def marshalClean : Settings → List Call → Bool
+  | _, [] => true
+  | s, c :: cs => !(c.plan s).ownErr && marshalClean (c.next s) cs
+
 /-- number of `Write` calls among the events -/
 def writeCount : List UEvent → Nat
   | [] => 0
@@ -62,8 +70,14 @@ def writeCount : List UEvent → Nat
   | .write _ _ _ :: es => writeCount es + 1
 
 def failedWrite : UEvent → Bool
-  | .write _ _ f => f
+  | .write _ _ e => e != 0
   | .header _ => false
+
+/-- the error (tag) of the first `Write` among the events that failed -/
+def firstFailure : List UEvent → Option Nat
+  | [] => none
+  | .header _ :: es => firstFailure es
+  | .write _ _ e :: es => if e != 0 then some e else firstFailure es
 
 /-- one high-level call as observed: what it caused underneath, and the getters after it -/
 structure ObsCall where
@@ -72,9 +86,17 @@ structure ObsCall where
   status : Nat
   /-- `ContentLength()` after the call -/
   length : Nat
-  /-- the call returned a non-nil error -/
-  retErr : Bool
+  /-- the error the call returned: nil, the very value one of the underlying `Write`s returned
+      (compared by identity, named by the tag of that event), or something else -/
+  ret : Ret
+  /-- a fact about the CALL, not about what happened: the value handed to it does not marshal (the
+      marshaller reports an error of its own).  Such a call has two reasons to fail; the clause
+      "returns THAT error" is about calls whose only failure is the writer's -/
+  ownErr : Bool := false
   deriving DecidableEq, Repr
+
+/-- the call returned a non-nil error -/
+def ObsCall.retErr (c : ObsCall) : Bool := c.ret.isErr
 
 structure History where
   /-- a content coding (CompressingResponseWriter) sits between the Response and the network;
@@ -93,9 +115,12 @@ def bookkeepingOK (evs : List UEvent) (status length : Nat) : Bool :=
 def callOK (coding : Bool) (before : List UEvent) (c : ObsCall) : Bool :=
   let evs := before ++ c.events
   bookkeepingOK evs c.status c.length &&
-  -- no coding in between: the call in which an underlying Write failed returns an error and the
-  -- count includes only accepted bytes
-  (coding || !c.events.any failedWrite || (c.retErr && c.length == acceptedBytes evs))
+  -- no coding in between: the call in which an underlying Write failed returns an error — THE error
+  -- that Write returned, when the value marshals (no error of the marshaller's own competes with
+  -- it) — and the count includes only accepted bytes
+  (coding || !c.events.any failedWrite ||
+    (c.retErr && c.length == acceptedBytes evs &&
+      (c.ownErr || (firstFailure c.events).map Ret.writer == some c.ret)))
 
 def callsOK (coding : Bool) : List UEvent → List ObsCall → Bool
   | _, [] => true
@@ -114,7 +139,7 @@ def finalOK (h : History) : Bool :=
 def c15Holds (h : History) : Bool := callsOK h.coding [] h.calls && finalOK h
 
 /-- the history the model produces -/
-def CallResult.obs (r : CallResult) : ObsCall := ⟨r.events, r.status, r.length, r.retErr⟩
+def CallResult.obs (r : CallResult) : ObsCall := ⟨r.events, r.status, r.length, r.ret, r.ownErr⟩
 
 def modelHistory (coding : Bool) (env : Env) (s : Settings) (calls : List Call) : History :=
   let fin := finalState env (State.init s) calls
